@@ -61,6 +61,8 @@ impl<T: Clone> Vector<T> {
     #[verifier::external_body]
     pub fn remove(&mut self, i: usize) -> (r: T) requires i < old(self)@.len() ensures final(self)@ == old(self)@.remove(i as int), r == old(self)@[i as int] { unimplemented!() }
     #[verifier::external_body]
+    pub fn into_iter(self) -> (r: SeqIt<T>) ensures r@ == self@ { unimplemented!() }
+    #[verifier::external_body]
     pub fn iter(&self) -> (r: SeqIt<&T>) ensures r@.len() == self@.len(), forall|i: int| 0 <= i < self@.len() ==> *(#[trigger] r@[i]) == self@[i] { unimplemented!() }
     #[verifier::external_body]
     pub fn split_at(self, i: usize) -> (r: (Vector<T>, Vector<T>)) requires i <= self@.len() ensures r.0@ == self@.subrange(0, i as int), r.1@ == self@.subrange(i as int, self@.len() as int) { unimplemented!() }
